@@ -493,6 +493,8 @@ func snapshot(ctor string, gd *generic.Driver, nd *network.Driver, nc *netconf.D
 		m["nc.PreferredVersion"] = nc.PreferredVersion
 		m["nc.ForceSelfClosingTags"] = fmt.Sprint(nc.ForceSelfClosingTags)
 		m["nc.ExcludeHeader"] = fmt.Sprint(nc.ExcludeHeader)
+		// exported state no option names: it must stay what a constructor without options leaves
+		m["nc.SelectedVersion"] = nc.SelectedVersion
 	default:
 		tr, logger = gd.Transport, gd.Logger
 		m["drv.TransportType"] = gd.TransportType
@@ -519,6 +521,7 @@ func snapshot(ctor string, gd *generic.Driver, nd *network.Driver, nc *netconf.D
 		m["net.OnOpen"] = funcID(nd.OnOpen)
 		m["net.OnClose"] = funcID(nd.OnClose)
 		m["net.PrivilegeLevels"] = "other-privs"
+		m["net.CurrentPriv"] = nd.CurrentPriv // (exported state no option names)
 
 		for i, pl := range p.privs {
 			if reflect.ValueOf(pl).Pointer() == reflect.ValueOf(nd.PrivilegeLevels).Pointer() {
